@@ -3,6 +3,7 @@ package main
 import (
 	"fmt"
 	"math/rand"
+	"sort"
 	"strings"
 
 	"verifharness/core"
@@ -457,6 +458,99 @@ func genLive(r *rand.Rand, emit func(core.Case), n int) {
 	}
 }
 
+// nodeWriteOrder: "node" = the order of the two writes in node/node.go startStateSync (the harness
+// reads it from the source, the model from the fact c14_startStateSync_order)
+const nodeWriteOrder = "node"
+
+var headerLies = []string{"hah", "hvh", "hnvh", "hcons", "hver", "cother", "cself", "vother"}
+var paramLies = []string{"pmb", "pmg", "piota", "peab", "pead", "pemb", "ppk", "pav", "pinv", "pht"}
+
+// genLcp: the real light-client state provider over lying RPC servers, and the node's two writes.
+func genLcp(r *rand.Rand, emit func(core.Case), n int) {
+	for c := 0; c < n; c++ {
+		spec := lspec{seed: int64(r.Intn(6)), n: 6 + r.Intn(5), nv: 1 + r.Intn(4), ih: []int64{1, 1, 1, 3, 7}[r.Intn(5)]}
+		tip := spec.ih + int64(spec.n) - 1
+		hIn := func() int64 { return spec.ih + int64(r.Intn(spec.n)) }
+		for k := r.Intn(3); k > 0; k-- {
+			v, dup := hIn(), false
+			for _, o := range spec.vchg {
+				dup = dup || o == v
+			}
+			if !dup {
+				spec.vchg = append(spec.vchg, v)
+			}
+		}
+		sort.Slice(spec.vchg, func(i, j int) bool { return spec.vchg[i] < spec.vchg[j] })
+		if r.Intn(2) == 0 {
+			spec.pchg = hIn()
+		}
+		if r.Intn(2) == 0 {
+			spec.uchg = hIn()
+		}
+		if r.Intn(3) == 0 {
+			spec.vver = hIn()
+		}
+		ch := getLChain(spec)
+		vch := "-"
+		if len(spec.vchg) > 0 {
+			t := make([]string, len(spec.vchg))
+			for i, v := range spec.vchg {
+				t[i] = fmt.Sprint(v)
+			}
+			vch = strings.Join(t, ",")
+		}
+		ops := []string{fmt.Sprintf("l.chain seed=%d n=%d nv=%d ih=%d vchg=%s pchg=%d uchg=%d vver=%d blocks=%s", spec.seed, spec.n, spec.nv, spec.ih,
+			vch, spec.pchg, spec.uchg, spec.vver, ch.blocksStr())}
+		for k := 1 + r.Intn(3); k > 0; k-- {
+			// snapshot height: mostly with h+2 on the chain; corners: the initial height, too close
+			// to the tip, below the initial height
+			h := spec.ih + int64(r.Intn(spec.n-2))
+			switch r.Intn(10) {
+			case 0:
+				h = spec.ih
+			case 1:
+				h = tip - int64(r.Intn(2))
+			case 2:
+				if spec.ih > 1 {
+					h = spec.ih - 1
+				}
+			}
+			trust := hIn()
+			lieP, lieW, all, exp := "-", "-", 0, "exact"
+			near := func() int64 { return h + int64(r.Intn(3)) }
+			switch r.Intn(6) {
+			case 0, 1: // lies about the consensus parameters (the model predicts the outcome)
+				at := h + 1
+				if r.Intn(6) == 0 {
+					at = near()
+				}
+				lieP = fmt.Sprintf("%s@%d", paramLies[r.Intn(len(paramLies))], at)
+			case 2: // the primary lies about a header / commit / validator set
+				lieP, exp = fmt.Sprintf("%s@%d", headerLies[r.Intn(len(headerLies))], near()), "any"
+			case 3: // a witness lies
+				lieW, exp = fmt.Sprintf("%s@%d", headerLies[r.Intn(len(headerLies))], near()), "any"
+			case 4: // every server tells the same lie
+				lieP, all, exp = fmt.Sprintf("%s@%d", headerLies[r.Intn(len(headerLies))], near()), 1, "any"
+			}
+			if trust == h || trust == h+1 || trust == h+2 {
+				if strings.HasPrefix(lieP, "h") || strings.HasPrefix(lieP, "c") || strings.HasPrefix(lieP, "v") {
+					// a lie at the trusted height itself is a wrong trust root, not a lying server
+					trust = spec.ih
+					if trust >= h {
+						trust = tip
+					}
+				}
+			}
+			common := fmt.Sprintf("h=%d trust=%d lieP=%s lieW=%s all=%d expect=%s", h, trust, lieP, lieW, all, exp)
+			ops = append(ops, "l.sync "+common)
+			if exp == "exact" && r.Intn(2) == 0 {
+				ops = append(ops, fmt.Sprintf("l.boot %s crash=%s order=%s", common, pick(r, []string{"-", "-", "between", "before"}), nodeWriteOrder))
+			}
+		}
+		emit(core.Case{Kind: "lcp", Ops: ops})
+	}
+}
+
 func main() {
 	core.Main(core.Prop{
 		ID:     "C14",
@@ -471,6 +565,7 @@ func main() {
 			genSync(r, emit, 2*n, tier)
 			genVerify(r, emit, n/2)
 			genRace(r, emit, n/10)
+			genLcp(r, emit, n/2)
 			live := 6
 			if tier == "thorough" {
 				live = 40
@@ -481,7 +576,7 @@ func main() {
 		Oracle: oracle,
 		NonTrivial: func(c core.Case, out []string) bool {
 			for _, o := range out {
-				if strings.HasPrefix(o, "chunk ") || o == "true" || strings.Contains(o, " A:") {
+				if strings.HasPrefix(o, "chunk ") || o == "true" || strings.Contains(o, " A:") || strings.HasPrefix(o, "apphash=") || strings.HasPrefix(o, "state=") {
 					return true
 				}
 			}
@@ -497,7 +592,7 @@ func main() {
 		},
 		Parallel: 8,
 		Extra: func() map[string]interface{} {
-			return map[string]interface{}{"scenario_histogram": scenHist, "syncany_result_histogram": runHist, "verdict_histogram": verdictHist, "racing_deliveries": raceHist}
+			return map[string]interface{}{"scenario_histogram": scenHist, "syncany_result_histogram": runHist, "verdict_histogram": verdictHist, "racing_deliveries": raceHist, "lcp_histogram": lcpHist}
 		},
 	})
 }
